@@ -952,7 +952,40 @@ def record(ctx, res, case, source):
         ctx.fail(res[0], res[1], case, True, source)
 
 
+# every implementation object the Gallina model mirrors by hand (Model/C13_urlpath.v, Model/C13_urlsplit.v)
+MODELLED = [
+    "webob.util:unquote", "webob.util:url_unquote",
+    "webob.request:BaseRequest.encget", "webob.request:BaseRequest.encset", "webob.request:_LATIN_ENCODINGS",
+    "webob.descriptors:environ_decoder",                 # script_name / path_info descriptors (get_/set_script, get_/set_path)
+    "webob.request:BaseRequest.script_name", "webob.request:BaseRequest.path_info",
+    "webob.request:BaseRequest.url_encoding",            # environ_getter("webob.url_encoding", "UTF-8"): the e_enc field
+    "webob.request:BaseRequest.host_port", "webob.request:BaseRequest.host_url",
+    "webob.request:BaseRequest._host__get", "webob.request:BaseRequest.domain",
+    "webob.request:BaseRequest.application_url", "webob.request:BaseRequest.path_url", "webob.request:BaseRequest.path",
+    "webob.request:BaseRequest.path_qs", "webob.request:BaseRequest.url",
+    "webob.request:BaseRequest.path_info_pop", "webob.request:BaseRequest.path_info_peek",
+    "webob.request:environ_from_url",
+    "webob.descriptors:SCHEME_RE",                       # shape ^[a-z]+: by hand (scheme_re_search); class members regenerated
+    "urllib.parse:quote", "urllib.parse:quote_from_bytes",
+    "urllib.parse:urlsplit", "urllib.parse:_splitnetloc", "urllib.parse:scheme_chars",
+    "urllib.parse:_WHATWG_C0_CONTROL_OR_SPACE", "urllib.parse:_UNSAFE_URL_BYTES_TO_REMOVE",
+]
+# translated into coq/Gen/C13_tables.v by gen(ctx) on every run
+REGENERATED = ["webob.request:PATH_SAFE", "urllib.parse:_ALWAYS_SAFE", "webob.descriptors:SCHEME_RE"]
+# exercised by the oracle only (no Gallina counterpart); _check_bracketed_host is the abstract predicate v6ok whose
+# recorded answers are fed to the model
+ORACLE_ONLY = [
+    "webob.request:BaseRequest.relative_url", "urllib.parse:urljoin", "webob.request:BaseRequest.blank",
+    "webob.request:BaseRequest.uscript_name", "webob.request:BaseRequest.upath_info",
+    "webob.request:BaseRequest.host", "webob.request:BaseRequest.scheme", "webob.request:BaseRequest.query_string",
+    "webob.request:AdhocAttrMixin.__setattr__", "urllib.parse:_check_bracketed_host", "urllib.parse:_checknetloc",
+]
+
+
 def run(ctx):
+    ctx.modelled(MODELLED)
+    ctx.extra["regenerated_from_source"] = REGENERATED
+    ctx.extra["oracle_only"] = ORACLE_ONLY
     problems = gen(ctx)
     for p in problems:
         ctx.broken.append("tie to the source: " + p)
